@@ -11,6 +11,8 @@
    implicit `return None`, which filter_error moves to the end of the enclosing function. *)
 From Coq Require Import ZArith List Bool Arith NArith Sorting.Sorted.
 From PV Require Import Generated.C03_ErrorClasses Directors.Model Directors.Spec Directors.Proofs.
+From Coq Require Import Sorting.Permutation Lia.
+From PV Require Import Directors.Parser Directors.ParserSpec Directors.ParserProofs Directors.ParserOrder Directors.ParserNest Directors.ParserIns Directors.ParserE2E.
 Import ListNotations.
 Open Scope Z_scope.
 
@@ -300,4 +302,209 @@ Example standalone_hyps :
 Proof.
   vm_compute. split; [repeat split; discriminate|]. split; [repeat constructor|].
   split; [eexists; split; reflexivity|]. split; reflexivity.
+Qed.
+
+
+(* ==== the parser (pytype/directors/parser.py, ast-level logic) ====================================
+   Model: Directors/Parser.v — BaseVisitor's post-order traversal over a mini tree (the node kinds
+   _ParseVisitor distinguishes, spans as (lineno, end_lineno)), _process_structured_comments /
+   _add_structured_comment_group on an insertion-ordered dict, _visit_function_def's signature range incl.
+   the defaultdict it grows, decorators, with/try/match, returns and function ranges.  [raw] is the
+   tokenizer's output (line -> comments, strictly increasing lines: [raw_ok]); [body] any list of trees, of
+   any size and nesting, with ANY spans (no well-formedness is needed for the theorems below). *)
+
+(* Every group of the visitor's output is right: a call range (Call/Compare/Subscript) holds EXACTLY the
+   trailing "pytype:" / "type: ignore" comments of its lines, in line order, each once — whatever happened
+   to the dict before or after (no directive of an earlier line is dropped, none added twice); a statement
+   range only holds comments of the source that sit on its own lines. *)
+Theorem parser_groups_exact : forall raw body, raw_ok raw ->
+  Forall (group_ok raw) (v_groups (parse raw body)).
+Proof. exact parse_groups_ok. Qed.
+Print Assumptions parser_groups_exact.
+
+(* A call range of the tree with a comment line inside it has a group in the output. *)
+Theorem parser_call_group_exists : forall raw body s e l cs, raw_ok raw ->
+  In (s, e) (flat_map calls_of body) -> In (l, cs) raw -> in_range s e l = true ->
+  od_has (mkK true s e) (v_groups (parse raw body)) = true.
+Proof. exact parse_call_group_exists. Qed.
+Print Assumptions parser_call_group_exists.
+
+(* What the Director model consumes: in every (line range, comment) event the comment's line lies inside
+   the range — the side condition [ev_start ev <= L <= ev_end ev] of the Director theorems above, PROVED of
+   the parser's output — and a call-range event always carries a trailing directive (never a stand-alone
+   comment, never a plain type comment), so [touched_disable] only ever adds start lines of ranges that
+   contain the directive's line. *)
+Theorem parser_events_in_range : forall raw body ev, raw_ok raw ->
+  In ev (events_of (director_groups (parse raw body))) ->
+  ev_start ev <= c_line (ev_comment ev) <= ev_end ev /\
+  (ev_call ev = true -> c_open (ev_comment ev) = false /\ c_body (ev_comment ev) <> TypeOther).
+Proof. exact parse_director_events. Qed.
+Print Assumptions parser_events_in_range.
+
+(* The dict of groups stays well-formed whatever the tree: keys distinct, ascending by start line (the
+   invariant the reverse search/scan of _add_structured_comment_group relies on), every range non-empty. *)
+Theorem parser_groups_sorted : forall raw body, raw_ok raw -> tinv (v_groups (parse raw body)).
+Proof. exact parse_tinv. Qed.
+Print Assumptions parser_groups_sorted.
+
+(* No comment is ever lost or duplicated: the statement-range groups together hold exactly the comments of
+   the file (as a multiset) ... *)
+Theorem parser_statement_groups_partition : forall raw body, raw_ok raw ->
+  Permutation (bc (v_groups (parse raw body))) (all_comments raw).
+Proof. exact parse_partition. Qed.
+Print Assumptions parser_statement_groups_partition.
+
+(* ... so every comment of the file — directive or not, trailing or stand-alone — sits in a statement-range
+   group whose range contains its line: the "base-group containment" hypothesis of
+   [trailing_disable_silences] (existence of [cev] with [keep false E = true]) PROVED of the parser. *)
+Theorem parser_base_group_containment : forall raw body c, raw_ok raw -> In c (all_comments raw) ->
+  exists ev, In ev (events_of (director_groups (parse raw body))) /\ ev_call ev = false /\
+             ev_comment ev = pc_c c /\ ev_start ev <= c_line (pc_c c) <= ev_end ev.
+Proof. exact parse_base_event. Qed.
+Print Assumptions parser_base_group_containment.
+
+(* Every statement range the visitor asks for (simple statement, header of if/for/while/with, handler type,
+   decorator, annotated assignment with a value, return, and the function signature range
+   (def line, [sig_line raw f]) with its approximated end incl. the function-type-comment rule) that holds a comment line is covered by a
+   statement-range group of the output — the range itself or a larger range that absorbed it. *)
+Theorem parser_statement_range_covered : forall raw body s e l cs, raw_ok raw ->
+  In (s, e) (flat_map (reqs_of raw) body) -> In (l, cs) raw -> in_range s e l = true ->
+  covers s e (v_groups (parse raw body)).
+Proof. exact parse_statement_covered. Qed.
+Print Assumptions parser_statement_range_covered.
+
+(* "The comment lands in the group of the statement range containing its line": PARTIAL — it needs the
+   statement-range groups of the output not to share lines ([parser_comment_in_own_statement_refuted] below
+   shows the hypothesis is necessary: two statements on one physical line).  Then the one group that holds the
+   comment covers the whole statement range, so a trailing directive is adjusted to a line at or before the
+   start of its own statement and never to a later one. *)
+Theorem parser_comment_in_own_statement_partial : forall raw body s e l cs c, raw_ok raw ->
+  In (s, e) (flat_map (reqs_of raw) body) -> In (l, cs) raw -> In c cs -> in_range s e l = true ->
+  base_disjoint (v_groups (parse raw body)) ->
+  exists k v, In (k, v) (v_groups (parse raw body)) /\ k_call k = false /\ In c v /\ k_s k <= s /\ e <= k_e k.
+Proof. exact parse_comment_with_statement. Qed.
+Print Assumptions parser_comment_in_own_statement_partial.
+
+(* [inserted] — the hypothesis of the frame theorems — for a trailing comment: [raw'] is the tokenizer's map of
+   the source with the comment [c] (not stand-alone), [erraw c raw'] the map of the same source with that
+   comment's text blanked (a plain "#": the token stays, so its line keeps its entry).  Erasing commutes with
+   the WHOLE visitor ([parse_erase]: groups, order, function ranges, returns, everything), hence the events of
+   the commented source are those of the blanked source plus events carrying [c], each in a range around c's
+   line.  PARTIAL with respect to the property's edit ("append the comment to a line"): that a plain comment
+   token on a line that had none is event-neutral is not proved; the check monitors it on the real parser for
+   every edit, together with "the tokenizer's map of the blanked source is the erased map". *)
+Theorem parser_trailing_comment_inserted_partial : forall raw' body c, raw_ok raw' -> pc_open c = false ->
+  (forall x, In x (all_comments raw') -> pc_eqb x c = true -> pc_c x = pc_c c) ->
+  exists Ad,
+    inserted (fun ev => ev_comment ev = pc_c c /\ ev_start ev <= c_line (pc_c c) <= ev_end ev)
+             (events_of (director_groups (parse (erraw c raw') body)))
+             (events_of (director_groups (parse raw' body))) Ad.
+Proof. exact parse_trailing_inserted. Qed.
+Print Assumptions parser_trailing_comment_inserted_partial.
+
+(* Return lines (used to tell implicit from explicit returns) are exactly the linenos of the Return nodes,
+   in visiting order; function ranges are exactly the dict built from (first decorator line or def line,
+   end_lineno) of every (Async)FunctionDef in visiting order (a later def with the same start overwrites). *)
+Theorem parser_return_lines_exact : forall raw body,
+  v_returns (parse raw body) = flat_map returns_of body.
+Proof. exact parse_returns. Qed.
+Print Assumptions parser_return_lines_exact.
+
+Theorem parser_function_ranges_exact : forall raw body,
+  v_fr (parse raw body) = dict_of (flat_map funcs_of body).
+Proof. exact parse_fr. Qed.
+Print Assumptions parser_function_ranges_exact.
+
+(* "A comment lands in the group of the statement whose lines contain it" is REFUTED as stated: two
+   statements sharing a physical line —  x = (1,        line 1
+                                          2); y = (3,   line 2   # pytype: disable=E
+                                          4)            line 3
+   the comment follows tokens of the second statement (lines 2-3) but is grouped under the first (1-2),
+   because the first request that contains the comment's line absorbs its single-line group. *)
+Definition pcm (l : Z) (b : cbody) (o : bool) (d : N) : pcomment := mkPC (mkC l b o) d.
+Definition semi_raw : rawmap := [(2, [pcm 2 (Pytype [CDisable [witness_class]]) false 0])].
+Definition semi_body : list node := [NStmt 1 2 []; NStmt 2 3 []].
+Theorem parser_comment_in_own_statement_refuted :
+  raw_ok semi_raw /\
+  map (fun kv => (k_s (fst kv), k_e (fst kv), length (snd kv))) (v_groups (parse semi_raw semi_body)) =
+  [(1, 2, 1%nat); (2, 3, 0%nat)].
+Proof. split; [simpl; repeat split; try constructor; auto; reflexivity | vm_compute; reflexivity]. Qed.
+Print Assumptions parser_comment_in_own_statement_refuted.
+
+(* non-vacuity: a decorated function with a multi-line signature, a multi-line call inside a multi-line
+   statement with directives on two of its lines, a with block with a return, a stand-alone directive
+     1  # pytype: disable=E0          (stand-alone)
+     2  @deco(1,   # type: ignore
+     3        2)
+     4  def f(a,   # pytype: disable=E0
+     5        b):
+     6    with cm() as w:
+     7      return g(1,   # pytype: disable=E0
+     8               h(2),  # pytype: enable=E0
+     9               3)                                                                          *)
+Definition ex_raw : rawmap :=
+  [(1, [pcm 1 (Pytype [CDisable [witness_class]]) true 0]);
+   (2, [pcm 2 TypeIgnore false 1]);
+   (4, [pcm 4 (Pytype [CDisable [witness_class]]) false 0]);
+   (7, [pcm 7 (Pytype [CDisable [witness_class]]) false 0]);
+   (8, [pcm 8 (Pytype [CEnable [witness_class]]) false 2])].
+Definition ex_body : list node :=
+  [NFunc (mkF 4 9 None (Some 5) 6 [(2, 3)])
+     [NCall 2 3 [];
+      NWith 6 9 (Some 6) 6 [NCall 6 6 []; NReturn 7 9 [NCall 7 9 [NCall 8 8 []]]]]].
+Example parser_inserted_example :
+  let c := pcm 8 (Pytype [CEnable [witness_class]]) false 2 in
+  pc_open c = false /\
+  (forall x, In x (all_comments ex_raw) -> pc_eqb x c = true -> pc_c x = pc_c c) /\
+  length (events_of (director_groups (parse ex_raw ex_body))) = 9%nat /\
+  length (events_of (director_groups (parse (erraw c ex_raw) ex_body))) = 6%nat.
+Proof.
+  split; [reflexivity|]. split; [|vm_compute; split; reflexivity].
+  intros x I E. vm_compute in I.
+  repeat (destruct I as [<-|I]; [try discriminate E; try reflexivity|]); contradiction.
+Qed.
+
+Example parser_example :
+  raw_ok ex_raw /\
+  map (fun kv => (k_call (fst kv), k_s (fst kv), k_e (fst kv), map pc_line (snd kv)))
+      (v_groups (parse ex_raw ex_body)) =
+  [(false, 1, 1, [1]); (false, 2, 3, [2]); (true, 2, 3, [2]); (false, 4, 5, [4]);
+   (false, 7, 9, [7; 8]); (true, 7, 9, [7; 8]); (true, 8, 8, [8])] /\
+  v_fr (parse ex_raw ex_body) = [(2, 9)] /\ v_returns (parse ex_raw ex_body) = [7] /\
+  block_returns (parse ex_raw ex_body) = [(6, [7])] /\
+  In (7, 9) (flat_map calls_of ex_body) /\ In (7, 9) (flat_map (reqs_of ex_raw) ex_body) /\
+  In (2, 3) (flat_map (reqs_of ex_raw) ex_body) /\ In (4, 5) (flat_map (reqs_of ex_raw) ex_body) /\ base_disjoint (v_groups (parse ex_raw ex_body)).
+Proof.
+  split; [simpl; repeat split; try constructor; auto; reflexivity|].
+  split; [vm_compute; reflexivity|]. split; [vm_compute; reflexivity|]. split; [vm_compute; reflexivity|].
+  split; [vm_compute; reflexivity|]. split; [vm_compute; auto 10|]. split; [vm_compute; auto 10|].
+  split; [vm_compute; auto 10|]. split; [vm_compute; auto 10|]. apply base_disjointb_sound. vm_compute. reflexivity.
+Qed.
+
+(* ==== source level: parser model followed by the Director model ======================================
+   The guarantee quoted in directors.py with NO hypothesis about the parser's output left: for any tree and any
+   comment map, a trailing "# pytype: disable=E" anywhere in the file filters every error of class E reported
+   on its line, provided the file has no trailing enable=E (the side condition shown necessary above). *)
+Theorem source_trailing_disable_silences : forall g raw body c L E st rl e l0 lr,
+  raw_ok raw -> In c (all_comments raw) -> pc_c c = trailing_disable L E ->
+  accepted_name E = true ->
+  Forall (fun ev => trailing_enable_of E (ev_comment ev) = false)
+         (events_of (director_groups (parse raw body))) ->
+  build g (v_fr (parse raw body)) (director_groups (parse raw body)) = Ok st ->
+  e_same_file e = true -> e_line e = Some l0 -> e_name e = E ->
+  reported_line st rl e l0 = Ok lr -> eff_line lr = L ->
+  filter_error st rl e = Ok (false, Some lr).
+Proof. exact PV.Directors.ParserE2E.source_trailing_disable_silences. Qed.
+Print Assumptions source_trailing_disable_silences.
+
+Definition src_raw : rawmap := [(5, [pcm 5 (Pytype [CDisable [witness_class]]) false 0])].
+Example source_example :
+  raw_ok src_raw /\
+  Forall (fun ev => trailing_enable_of witness_class (ev_comment ev) = false)
+         (events_of (director_groups (parse src_raw ex_body))) /\
+  map (fun l => verdict_src [] src_raw ex_body (same_file_err l witness_class false)) [3; 4; 5; 6] =
+  [Ok (true, Some 3); Ok (false, Some 4); Ok (false, Some 5); Ok (true, Some 6)].
+Proof.
+  split; [simpl; repeat split; try constructor; auto; reflexivity|].
+  split; [vm_compute; repeat constructor | vm_compute; reflexivity].
 Qed.
